@@ -70,6 +70,7 @@ type Unit struct {
 	quantOK         bool
 	sliceConstLen   map[string]int
 	axiomErrs       []string
+	replayWhy       string
 	lastMonBase     map[*Monitor]*monBase
 	enumTag         map[string]*enumInfo // slice term -> the map whose keys it enumerates (after the loop)
 	usedInvs        map[string]bool
